@@ -96,6 +96,59 @@ type fmtStats struct {
 	rt, rtTame                                          map[string]int
 }
 
+// treesTheParserRefuses: the generated texts are renderings of trees. A text the real parser refuses is
+// outside the round trip only if it is outside the grammar; when the parser MODEL (= the grammar:
+// C05_accepts_exactly) reads it, the tree exists, and the property speaks about it: the tree is handed to
+// the real formatter without going through the parser (model tree → JSON text of the model → encoding/json)
+// and its formatted text must parse back to it.
+func (c *Ctx) treesTheParserRefuses(k fmtKind, inputs, hexes []string, refused []int, st *fmtStats) {
+	if len(refused) == 0 {
+		return
+	}
+	var preq []string
+	for _, i := range refused {
+		preq = append(preq, "pq -1 "+hexes[i])
+	}
+	pout := c.Driver.Map(preq)
+	var jreq []string
+	var jidx []int
+	for j, i := range refused {
+		if strings.HasPrefix(pout[j], "(") {
+			jreq = append(jreq, "jsonenc "+pout[j])
+			jidx = append(jidx, i)
+		}
+	}
+	if len(jreq) == 0 {
+		return
+	}
+	jout := c.Driver.Map(jreq)
+	var wreq []string
+	for j := range jidx {
+		wreq = append(wreq, "rtqjson "+k.cfgs+" "+jout[j])
+	}
+	wout := c.Worker.Map(wreq)
+	cfgs := strings.Split(k.cfgs, ";")
+	for j, i := range jidx {
+		c.Ev.Count("q:trees-of-texts-the-parser-refuses", 1)
+		rep := map[string]any{"kind": "q-tree", "input_hex": hexes[i], "input": inputs[i], "tree_json_hex": jout[j], "observation": clip(wout[j], 2000)}
+		found := false
+		for x, r := range strings.Split(wout[j], ";") {
+			if r == "ok" || x >= len(cfgs) {
+				continue
+			}
+			p := strings.SplitN(r, ":", 4)
+			if len(p) >= 3 && (p[0] == "reparse-fails" || p[0] == "tree-differs") {
+				found = true
+				c.Report("spec", "q:tree-roundtrip-"+p[0]+"/"+p[1], fmt.Sprintf("the tree of %q (read by the parser model; the real parser refuses that text) cfg %s: its formatted text %q %s", inputs[i], cfgs[x], unhexS(p[len(p)-1]), p[0]), rep)
+				break
+			}
+		}
+		if !found {
+			c.ReportNoInput("correspondence", "q:parser-refuses-what-its-model-reads", fmt.Sprintf("the real parser refuses %q, the parser model reads it; the tree could not be handed to the formatter (%s)", inputs[i], clip(wout[j], 200)), rep)
+		}
+	}
+}
+
 // runFormatBatch runs the correspondence and the direct checks for one batch of source texts.
 func (c *Ctx) runFormatBatch(k fmtKind, inputs []string, st *fmtStats, tame ...bool) {
 	cfgs := strings.Split(k.cfgs, ";")
@@ -108,10 +161,14 @@ func (c *Ctx) runFormatBatch(k fmtKind, inputs []string, st *fmtStats, tame ...b
 	wout := c.Worker.Map(wreq)
 	var dreq []string
 	var didx []int
+	var refused []int
 	for i := range inputs {
 		sx := wout[4*i]
 		if !strings.HasPrefix(sx, "(") {
 			st.skipped++
+			if k.tag == "q" && strings.HasPrefix(sx, "E") {
+				refused = append(refused, i)
+			}
 			if strings.HasPrefix(sx, "CRASH") || strings.HasPrefix(sx, "TIMEOUT") || strings.HasPrefix(sx, "PANIC") {
 				c.Report("runtime", k.tag+":parse-crash", fmt.Sprintf("parsing/loading %q: %s", inputs[i], sx), map[string]any{"op": k.sxOp, "input_hex": hexes[i]})
 			}
@@ -121,6 +178,7 @@ func (c *Ctx) runFormatBatch(k fmtKind, inputs []string, st *fmtStats, tame ...b
 		dreq = append(dreq, k.fmtOp+" "+k.cfgs+" "+sx)
 		didx = append(didx, i)
 	}
+	c.treesTheParserRefuses(k, inputs, hexes, refused, st)
 	dout := c.Driver.Map(dreq)
 	for j, i := range didx {
 		in := inputs[i]
@@ -427,6 +485,15 @@ func checkXFormat(c *Ctx) {
 
 // minimal inputs for the known deviations (DESIGN §7 R12a, R12b, R13a–R13e) and neighbours
 var fmtMinimalQ = []string{
+	// a variable inside the arguments of a directive, directly and nested, at every directive position of the grammar
+	"query Q($v: Boolean) @d(a: $v) { f }",
+	"query ($v: Boolean) { f @d(a: [$v]) }",
+	"{ ...F @d(a: {k: $v}) }",
+	"{ ... on T @d(a: $v) { f } ... @d(a: [1, {k: [$v]}]) { g } }",
+	"fragment F on T @d(a: $v) { f }",
+	"fragment F on T @tag(with: {flags: [true, $v]}) @e { id }",
+	"fragment F($w: Int = 1) on T @d(a: [$w, $v]) { f(x: $w) @e(b: $w) }",
+	"subscription S @d(a: $v) { f } mutation M @d(a: {k: $v}) { g }",
 	`{ f(a: "\u0007") }`,                  // R12a \a
 	`{ f(a: "\u000b") }`,                  // R12a \v
 	`{ f(a: "\u007f") }`,                  // R12a \x7f
